@@ -22,7 +22,7 @@ SCHEMES = ["http", "https", "ws", "wss"]
 DEFAULT = {"http": 80, "https": 443, "ws": 80, "wss": 443}
 SERVERS = [("h", "default"), ("h", 8080), ("h", 80), ("h", 443), ("10.0.0.1", 80), ("::1", 8000), ("h", 65535), ("h", 1),
            ("::ffff:192.0.2.1", 8000), ("64:ff9b::198.51.100.7", "default"), ("2001:db8:0:0:0:0:0:1", 8000), ("FE80::A", 8000)]  # IPv6 with a dotted IPv4 tail, in full form, in capitals
-HOSTS = [None, "x.org", "x.org:81", "[::1]:81", "x.org:65535", "[::1]:65535", "API.Example.ORG:8443", "[FE80::A]:81"]
+HOSTS = [None, "x.org", "x.org:81", "[::1]:81", "x.org:65535", "[::1]:65535", "API.Example.ORG:8443", "[FE80::A]:81", "example.org.", "my_service:8000", "api_v2.internal.:81"]
 ROOTS = ["", "/r", "/ré"]
 PATHS = ["/", "/a b", "/é", "/a?b", "/a#b", "", "/a/b.c", "/r/users", "/r", "/ré/x", "//a/b", "//", "///a", "/a//b/"]
 QUERIES = [b"", b"a=1", b"a=%20&b", "name=café&q=日本".encode("utf-8"), b"l=\xe9"]  # the last two: raw UTF-8 and a raw Latin-1 byte, unescaped
